@@ -93,6 +93,10 @@ class SymFactory:
         self.symbols[name] = s
         return s
 
+    def unit3(self, names):
+        """Three reals meant as a unit vector (the contract's `requires` states |u| = 1)."""
+        return self.reals(names)
+
 
 POOL = [0.0, 1.0, -1.0, 2.0, -2.0, 0.5, -0.5, 3.0, -3.0, 1.5, 0.25, 4.0, -1.5, 0.75, 5.0, -4.0, 2.5, 7.0, -0.25, 10.0]
 
@@ -137,6 +141,30 @@ class SampleFactory:
     def bool(self, name):
         v = bool(self.values[name]) if self.values is not None else self.rng.random() < 0.5
         self.symbols[name] = v
+        return v
+
+    def unit3(self, names):
+        if isinstance(names, str):
+            names = names.split()
+        if self.values is not None:
+            return [float(self.values[n]) for n in names]
+        r = self.rng.random()
+        if r < 0.45:
+            v = [0.0, 0.0, 0.0]
+            v[self.rng.randrange(3)] = self.rng.choice([1.0, -1.0])
+        elif r < 0.6:
+            k = self.rng.randrange(3)
+            c, s_ = self.rng.choice([(0.6, 0.8), (0.8, -0.6), (-0.6, 0.8), (0.28, 0.96)])
+            v = [0.0, 0.0, 0.0]
+            v[k] = c
+            v[(k + 1) % 3] = s_
+        else:
+            import math
+            w = [self.rng.gauss(0, 1) for _ in range(3)]
+            n = math.sqrt(sum(x * x for x in w)) or 1.0
+            v = [x / n for x in w]
+        for n_, x in zip(names, v):
+            self.symbols[n_] = x
         return v
 
 
@@ -464,7 +492,7 @@ def verify_unit(cname, case_label, tier, seed):
                 allargs['calls'] = _Calls(p.calls)
                 CTX.path = pre_path = Path()
                 try:
-                    pre_hyps = [_b(C.requires(**allargs))] + pre_path.extra
+                    pre_hyps = [_b(C.requires(**allargs) if C.requires else True)] + pre_path.extra
                 except _NoSuchCall:
                     pre_hyps = [z3.BoolVal(True)]
                 finally:
@@ -514,8 +542,9 @@ def verify_unit(cname, case_label, tier, seed):
                                                  min(budget, 5), want_model=False)
                 res['vacuity'] = {'sat': 'non-vacuous', 'unsat': 'VACUOUS', 'unknown': 'undecided'}[v]
                 if v == 'unsat':
-                    res['status'] = 'checker-error'
-                    res['notes'].append(f'path {pi}: hypotheses and postcondition are jointly unsatisfiable')
+                    # the path is feasible (checked above) but no state on it satisfies the postcondition:
+                    # the obligations below cannot be discharged -- reported there, not as a checker defect
+                    res['notes'].append(f'path {pi}: no state of this path satisfies the whole postcondition')
             for label, goal, h in obls:
                 o = discharge(label, goal, full_hyps if h is None else h, budget, tier)
                 o['path'] = pi
@@ -524,6 +553,14 @@ def verify_unit(cname, case_label, tier, seed):
                 if o['verdict'] == 'sat' and o.get('model') is not None:
                     model = o.pop('model')
                     o['cex'] = replay_model(C, args, ghosts, model, label)
+                    if not o['cex'].get('confirmed'):
+                        # look for a counter-model that floating point represents exactly (small dyadic inputs)
+                        for nm in nice_models((full_hyps if h is None else h) + p.call_defs, goal, S.symbols,
+                                              budget):
+                            c2 = replay_model(C, args, ghosts, nm, label)
+                            if c2.get('confirmed'):
+                                o['cex'] = c2
+                                break
                 o.pop('model', None)
                 res['obligations'].append(o)
         if res['feasible_paths'] == 0:
@@ -549,6 +586,14 @@ def discharge(label, goal, hyps, budget, tier):
     t0 = time.time()
     out = {'label': label}
     if isinstance(goal, Ident):
+        if goal.when is not None:
+            hyps = list(hyps) + [goal.when]
+            v0, _, _, _, who0 = backend.check(hyps, z3.BoolVal(True), min(budget, 5), want_model=False)
+            if v0 == 'unsat':
+                out.update(verdict='unsat', backend=who0 + '(guard infeasible on this path)',
+                           s=round(time.time() - t0, 4))
+                return out
+            goal = Ident(Sym(goal.lhs), Sym(goal.rhs))
         v, info = backend.ideal_check(hyps, goal.lhs, goal.rhs)
         if v == 'unsat':
             out.update(verdict='unsat', backend='ideal(sympy)', s=round(time.time() - t0, 4), info=_small(info))
@@ -572,6 +617,29 @@ def discharge(label, goal, hyps, budget, tier):
         out['model'] = model
     out['smt_size'] = len(solver.to_smt2())
     return out
+
+
+def nice_models(hyps, goal, symbols, budget):
+    """Counter-models whose input symbols are small integers / halves / quarters (exactly representable)."""
+    f = _formula(goal)
+    consts = [v.t for v in symbols.values() if is_sym(v) and z3.is_real(v.t)]
+    for denom, bound in ((1, 4), (2, 8), (4, 40), (None, None)):
+        s = z3.Solver()
+        s.set('timeout', int(min(budget, 4) * 1000))
+        for h in hyps:
+            s.add(h)
+        s.add(z3.Not(f))
+        for i, c in enumerate(consts):
+            if denom is None:
+                break
+            k = z3.Int(f'nice!{i}')
+            s.add(c * denom == z3.ToReal(k), k >= -bound, k <= bound)
+        try:
+            r = s.check()
+        except z3.Z3Exception:
+            continue
+        if r == z3.sat:
+            yield s.model()
 
 
 def _small(info):
